@@ -4,7 +4,8 @@
 (* Time is exact: the unit is one microsecond-tick (us * tick); seconds =   *)
 (* units / (10^6 * ticks_per_beat), a division the replay driver performs  *)
 (* with exact rationals.  An event is <<delta ticks, kind>> with kind      *)
-(*   "n" a channel message, "x" a non-tempo meta message,                  *)
+(*   "n" a channel message, "x" a non-tempo meta message, "u" a meta       *)
+(*   message of a type mido does not know (UnknownMetaMessage),            *)
 (*   "t1" / "t2" / "t3" set_tempo to 1 / 16777215 / 250000 us per beat,    *)
 (*   "t0" set_tempo back to the default 500000,                            *)
 (*   "e" end_of_track.                                                     *)
@@ -16,7 +17,7 @@ CONSTANTS MaxTracks, MaxEvents, Deltas, KindsUsed, WithPlay
 DefaultTempo == 500000
 TempoOf(k) == CASE k = "t1" -> 1 [] k = "t2" -> 16777215 [] k = "t3" -> 250000 [] k = "t0" -> 500000
 IsTempo(k) == k \in {"t0", "t1", "t2", "t3"}
-IsMetaKind(k) == k \in {"x", "e", "t0", "t1", "t2", "t3"}
+IsMetaKind(k) == k \in {"x", "u", "e", "t0", "t1", "t2", "t3"}
 
 VARIABLES tracks, delays, metaflag
 vars == <<tracks, delays, metaflag>>
@@ -88,7 +89,7 @@ Spec == Init /\ [][Next]_vars
 PlayInv == WithPlay => LET p == Play IN NeverEarly(p) /\ NoDrift(p)
 
 KindCode(k) == CASE k = "n" -> 1 [] k = "x" -> 2 [] k = "t1" -> 3 [] k = "t2" -> 4
-                 [] k = "t3" -> 5 [] k = "e" -> 6 [] k = "t0" -> 7
+                 [] k = "t3" -> 5 [] k = "e" -> 6 [] k = "t0" -> 7 [] k = "u" -> 8
 Emit == LET it == Iteration
            pl == IF WithPlay THEN Play ELSE [sleeps |-> <<>>, yields |-> <<>>] IN
   PrintT(ToString(
